@@ -2,8 +2,9 @@
 //!
 //! ops `ec` `ecu` `vc` `vcu`: one (graph, source, sink);  `all_*`: one graph, every
 //! ordered (source, sink) of the property's domain (DESIGN §5.7):
-//!   source != sink, both endpoints of edges; vertex cuts: no edge source -> sink
-//!   (directed entry point) / no edge between them in either direction (undirected).
+//!   source != sink, the source an endpoint of an edge; edge cuts: the sink may also be a
+//!   vertex that occurs in no edge; vertex cuts: the sink an endpoint of an edge and no edge
+//!   source -> sink (directed entry point) / none in either direction (undirected).
 //! The observable is the cut as a sorted list (duplicates kept) and the inside set
 //! (sorted); unordered cut edges of the undirected entry point travel as (min,max).
 use rust_dsymbols::util::cutsets::{
@@ -61,14 +62,29 @@ fn in_domain(k: Kind, es: &[E], s: usize, t: usize) -> bool {
         return false;
     }
     let has = |x: usize| es.iter().any(|&(v, w)| v == x || w == x);
-    if !has(s) || !has(t) {
+    if !has(s) {
         return false;
     }
     match k {
+        // edge cuts: the sink may be a vertex that occurs in no edge
         Kind::Ec | Kind::Ecu => true,
-        Kind::Vc => !es.contains(&(s, t)),
-        Kind::Vcu => !es.contains(&(s, t)) && !es.contains(&(t, s)),
+        Kind::Vc => has(t) && !es.contains(&(s, t)),
+        Kind::Vcu => has(t) && !es.contains(&(s, t)) && !es.contains(&(t, s)),
     }
+}
+
+/// sink candidates: every endpoint, then (edge cuts only make use of them) two labels that
+/// occur in no edge — the smallest one below the largest endpoint, if any, and one beyond it
+fn sinks(es: &[E]) -> Vec<usize> {
+    let vs = endpoints(es);
+    let mut ts = vs.clone();
+    if let Some(&mx) = vs.last() {
+        if let Some(g) = (0..mx).find(|x| !vs.contains(x)) {
+            ts.push(g);
+        }
+        ts.push(mx + 2);
+    }
+    ts
 }
 
 /// call the real entry point and render cut + inside
@@ -128,9 +144,11 @@ fn reachable(es: &[E], s: usize, t: usize, undirected: bool) -> bool {
 
 fn tags(k: Kind, es: &[E], s: usize, t: usize, family: &str) -> String {
     let nt = reachable(es, s, t, k == Kind::Ecu || k == Kind::Vcu);
+    let iso = !es.iter().any(|&(v, w)| v == t || w == t);
     format!(
-        "{}{} nv={} ne={}",
+        "{}{}{} nv={} ne={}",
         if nt { "nt " } else { "" },
+        if iso { "isolated-sink " } else { "" },
         family,
         endpoints(es).len().min(12),
         es.len().min(24)
@@ -160,7 +178,7 @@ fn batch(ctx: &mut Ctx, k: Kind, es: &[E], family: &str) {
     ctx.case(k.all_op(), &tg, || enc_edges(es), || {
         let mut parts: Vec<String> = vec![];
         for &s in &vs {
-            for &t in &vs {
+            for &t in &sinks(es) {
                 if in_domain(k, es, s, t) {
                     let r = catch_unwind(AssertUnwindSafe(|| answer(k, es, s, t)));
                     parts.push(format!("{} {} {}", s, t, r.unwrap_or_else(|_| "PANIC".to_string())));
@@ -173,8 +191,9 @@ fn batch(ctx: &mut Ctx, k: Kind, es: &[E], family: &str) {
 
 fn all_pairs_single(ctx: &mut Ctx, es: &[E], family: &str) {
     let vs = endpoints(es);
+    let ts = sinks(es);
     for &s in &vs {
-        for &t in &vs {
+        for &t in &ts {
             for k in KINDS {
                 single(ctx, k, es, s, t, family);
             }
@@ -518,6 +537,13 @@ fn main() {
             for k in KINDS {
                 single(&mut ctx, k, &es, s, t, "rand");
             }
+        }
+        // a sink that occurs in no edge (edge cuts only; inside / beyond the label range)
+        let ts = sinks(&es);
+        let s = vs[rng.below(vs.len())];
+        for &t in &ts[vs.len()..] {
+            single(&mut ctx, Kind::Ec, &es, s, t, "rand");
+            single(&mut ctx, Kind::Ecu, &es, s, t, "rand");
         }
     }
     // every pair of a smaller number of random graphs
